@@ -605,6 +605,10 @@ class Slicer:
             return ("fnconst", c["closure"])
         if "v" in c:
             return ("const", c["v"])
+        if "variant" in c:
+            return ("agg", c.get("adt"), c["variant"], {})
+        if "bytes" in c:
+            return ("const", c["bytes"])
         if "item" in c:
             v = self.F.const_value(c["item"])
             if v is not None:
@@ -1738,3 +1742,93 @@ def fields_touched(F, root, adts, kinds, depth=2, crates=("jj_lib",)):
 
 READ_KINDS = ("read", "move", "shared", "through", "fake", "discr")
 WRITE_KINDS = ("write", "mut", "mut-through", "write-through")
+
+
+# ---------------------------------------------------------------------------
+# format_args! templates (packed byte encoding of this toolchain) -> pieces
+
+
+def decode_template(s):
+    """packed template -> list of ('lit', text) | ('arg',) ; None if the encoding is not understood"""
+    out = []
+    i = 0
+    n = len(s)
+    while i < n:
+        b = ord(s[i])
+        if b == 0:
+            return out
+        if b < 0x80:
+            out.append(("lit", s[i + 1:i + 1 + b].encode("latin-1").decode("utf-8", "replace")))
+            i += 1 + b
+        elif b == 0xC0:
+            out.append(("arg",))
+            i += 1
+        else:
+            # placeholder with explicit options: not needed by the rules; give up on this template
+            return None
+    return out
+
+
+def format_sites(F, body):
+    """[(call site of fmt::Arguments::new, [('lit', text) | ('arg', term)])] for every format_args! in the body"""
+    sl = F.slicer(body.id)
+    res = []
+    for c in body.calls:
+        if c.cleanup or not name_matches(c.res or c.decl or "", "re:^std::fmt::Arguments::<'a>::new$"):
+            continue
+        t = strip(sl.call_arg(c, 0))
+        if not (isinstance(t, tuple) and t[0] == "const" and isinstance(t[1], str)):
+            continue
+        pieces = decode_template(t[1])
+        if pieces is None:
+            res.append((c, None))
+            continue
+        args = strip(sl.call_arg(c, 1))
+        arg_terms = []
+        if isinstance(args, tuple) and args[0] == "call" and args[1] == "[array]":
+            for a in args[2]:
+                a = strip(a)
+                if isinstance(a, tuple) and a[0] == "call" and a[2]:
+                    arg_terms.append(a[2][0])
+                else:
+                    arg_terms.append(a)
+        out = []
+        k = 0
+        for p in pieces:
+            if p[0] == "lit":
+                out.append(p)
+            else:
+                out.append(("arg", arg_terms[k] if k < len(arg_terms) else T_unknown("fmtarg")))
+                k += 1
+        res.append((c, out))
+    return res
+
+
+def format_prefix(pieces):
+    """leading constant text of a decoded format site (literals and constant string arguments)"""
+    s = ""
+    for p in pieces:
+        if p[0] == "lit":
+            s += p[1]
+        else:
+            t = strip(p[1])
+            if isinstance(t, tuple) and t[0] == "const" and isinstance(t[1], str):
+                s += t[1]
+            else:
+                break
+    return s
+
+
+def format_shape(pieces):
+    """template with constant args inlined and other args shown as {}"""
+    s = ""
+    for p in pieces:
+        if p[0] == "lit":
+            s += p[1]
+        else:
+            t = strip(p[1])
+            if isinstance(t, tuple) and t[0] == "const" and isinstance(t[1], str):
+                s += t[1]
+            else:
+                s += "{}"
+    return s
